@@ -183,6 +183,12 @@ impl Watcher {
             return Err(AddAppointmentFailure::SubscriptionExpired(expiry));
         }
 
+        // Appointments are taken in one at a time, and not while a block is being searched for breaches (see
+        // `filtered_block_connected`): the "already triggered?" check, the slot accounting, the cache look-up and the
+        // insertion must not interleave with those of another request for the same appointment, nor with the block
+        // that triggers it.
+        let locator_cache = self.locator_cache.lock().unwrap();
+
         let extended_appointment = ExtendedAppointment::new(
             appointment,
             user_id,
@@ -208,12 +214,7 @@ impl Watcher {
         // This will hang, the request will timeout but be accepted. However, the user will not be handed the receipt.
         // This could be fixed adding a thread to take care of storing while the main thread returns the receipt.
         // Not fixing this atm since working with threads that call self.method is surprisingly non-trivial.
-        match self
-            .locator_cache
-            .lock()
-            .unwrap()
-            .get(&extended_appointment.locator())
-        {
+        match locator_cache.get(&extended_appointment.locator()) {
             // Appointments that were triggered in blocks held in the cache
             Some(dispute_tx) => {
                 self.store_triggered_appointment(uuid, &extended_appointment, user_id, dispute_tx);
@@ -525,10 +526,10 @@ impl chain::Listen for Watcher {
             .map(|(_, tx)| (Locator::new(tx.compute_txid()), (*tx).clone()))
             .collect();
 
-        self.locator_cache
-            .lock()
-            .unwrap()
-            .update(*header, &locator_tx_map);
+        // The cache stays locked until the breaches of this block are handled, so no appointment is accepted halfway
+        // (see `add_appointment`).
+        let mut locator_cache = self.locator_cache.lock().unwrap();
+        locator_cache.update(*header, &locator_tx_map);
 
         // Get the breaches found in this block, handle them, and delete invalid ones.
         if let Some(invalid_breaches) = self.handle_breaches(self.get_breaches(locator_tx_map)) {
